@@ -329,6 +329,8 @@ class Engine:
         st.store[loc] = v
 
     def havoc(self, st, loc, cid):
+        while loc[0] == "S":
+            loc = loc[1]
         for k in [k for k in st.store if k == loc or _is_child(k, loc)]:
             del st.store[k]
         st.store[loc] = ("havoc", cid, loc)
@@ -423,11 +425,17 @@ class Engine:
         f = _PseudoFn(fn, pb, idx)
         paths = sub.run(f, [])
         if len(paths) == 1 and paths[0].status == "return":
-            r = paths[0].ret
-            if r[0] == "ref":
-                val = sub.read(_store_state(paths[0].store), r[1])
-                return ("pref", val)
-            return r
+            st2 = _store_state(paths[0].store)
+
+            def deep(t, d=0):
+                if not isinstance(t, tuple) or d > 8:
+                    return t
+                if t and t[0] == "ref" and _root_kind(t[1]) == "L":
+                    return ("pref", deep(sub.read(st2, t[1]), d + 1))
+                if t and t[0] in ("c", "str", "bytes", "param"):
+                    return t
+                return tuple(deep(x, d + 1) if isinstance(x, tuple) else x for x in t)
+            return deep(paths[0].ret)
         return unknown("promoted body")
 
     # ---- rvalues ---------------------------------------------------------------------------
@@ -1013,8 +1021,11 @@ def _m_identity(eng, st, callee, args, ev):
 
 def _m_into_iter(eng, st, callee, args, ev):
     a = args[0]
-    if a[0] == "agg" and a[2] and a[2].endswith("::Range"):
+    if a[0] == "agg" and a[1] == "adt" and a[2] and a[2].endswith("::Range"):
         return a
+    if a[0] == "agg" and a[1] == "array":
+        # by-value array iterator: elements in index order
+        return ("agg", "adt", "core::array::iter::IntoIter", "IntoIter", ("elems", "pos"), (a, C(0, "usize")), 0)
     return NotImplemented
 
 
@@ -1023,7 +1034,14 @@ def _m_range_next(eng, st, callee, args, ev):
     if r[0] != "ref":
         return NotImplemented
     v = eng.read(st, r[1])
-    if v[0] == "agg" and v[2] and v[2].endswith("ops::range::Range"):
+    if v[0] == "agg" and v[1] == "adt" and v[2] == "core::array::iter::IntoIter":
+        arr, pos = v[5][0], v[5][1]
+        if is_c(pos) and arr[0] == "agg":
+            if pos[1] < len(arr[5]):
+                eng.write(st, r[1], v[:5] + ((arr, C(pos[1] + 1, "usize")),) + v[6:])
+                return ("agg", "adt", "core::option::Option", "Some", ("0",), (arr[5][pos[1]],), 1)
+            return ("agg", "adt", "core::option::Option", "None", (), (), 0)
+    if v[0] == "agg" and v[1] == "adt" and v[2] and v[2].endswith("ops::range::Range"):
         s, e = v[5][0], v[5][1]
         if is_c(s) and is_c(e):
             if s[1] < e[1]:
